@@ -376,6 +376,29 @@ func (c *Ctx) sqlWiring() {
 		}
 		return ""
 	}
+	// the table the statements run on is created by the constructor: it executes the dialect's
+	// CreateTable text (every other method of a fresh repository fails, or answers for another
+	// table, without it)
+	creates := false
+	for _, body := range c.familyBodies(ctor) {
+		ast.Inspect(body, func(nd ast.Node) bool {
+			call, ok := nd.(*ast.CallExpr)
+			if !ok || len(call.Args) < 1 || !strings.HasSuffix(calleeName(info, call), "database/sql.(DB).Exec") {
+				return true
+			}
+			txt, _ := c.origin(info, ctor.Decl, call.Args[0], 0)
+			if dc, isC := txt.(*ast.CallExpr); isC {
+				if fn := callee(info, dc); fn != nil && fn.Name() == "CreateTable" {
+					creates = true
+				}
+			}
+			return true
+		})
+	}
+	run.Oblige(creates)
+	if !creates {
+		c.violate("repository/sql-wiring", "asset.NewSQLRepository", "create table", ctor.Decl.Pos(), "the constructor no longer executes the dialect's CreateTable text: on a fresh database every statement of the repository runs against a table that does not exist")
+	}
 	fieldFrom := map[string]string{}
 	ast.Inspect(ctor.Decl.Body, func(nd ast.Node) bool {
 		cl, ok := nd.(*ast.CompositeLit)
